@@ -592,6 +592,16 @@ func (r *c13Run) opMint(p *c13Pool, roundTrip bool) {
 			return
 		}
 		swapper = r.sw.GetSwapper(x, y)
+		if g.emulated {
+			// Known finding c13-gas-emulation-mint-panic, as for burn.
+			var liqReal *big.Int
+			r.call("CalculateAddLiquidity", func() { liqReal, _ = swapper.CalculateAddLiquidity(v0, p.supply) })
+			if liqReal.Sign() != 1 {
+				r.note("excluded: known finding c13-gas-emulation-mint-panic (no liquidity on the real pool)")
+				r.excluded["c13-gas-emulation-mint-panic"]++
+				return
+			}
+		}
 	}
 	r.resetBus()
 	var b0, b1, liq *big.Int
@@ -872,6 +882,24 @@ func (r *c13Run) opTrade(p *c13Pool, buy bool) {
 			return
 		}
 		kind += "+gas"
+		if g.emulated {
+			// Known finding c13-gas-emulation-{sell,buy}-panic: the checks ran on the emulated pool;
+			// on the real pool after the commission trade the call would panic (nothing to pay out /
+			// nothing to pay in). The node is down here; go on from the state after the commission.
+			var real *big.Int
+			real2 := r.sw.GetSwapper(inC, outC)
+			if !buy {
+				r.call("CalculateBuyForSellWithOrders", func() { real, _ = real2.CalculateBuyForSellWithOrders(amtIn) })
+			} else {
+				r.call("CalculateSellForBuyWithOrders", func() { real, _ = real2.CalculateSellForBuyWithOrders(amtOut) })
+			}
+			if real == nil || real.Sign() != 1 {
+				id := "c13-gas-emulation-" + strings.TrimSuffix(kind, "+gas") + "-panic"
+				r.note("excluded: known finding %s (on the real pool the estimate is %v, on the emulated pool %s)", id, real, est)
+				r.excluded[id]++
+				return
+			}
+		}
 	}
 	r.tradeExec(p, inC, outC, buy, kind, amtIn, amtOut, limit, est, g != nil)
 }
